@@ -636,7 +636,91 @@ def copy_rules(rep, model):
             rep.undecided('R5L', cons, str(e), NPY, fn.lineno)
         except PyRaise as e:
             rep.violation('R5L', cons, 'raises %s' % e.name, NPY, fn.lineno)
-    rep.floor('R5L', 'copy evaluations', n, 4)
+    # the same for the elements of discretized spaces: the element wraps a
+    # tensor, its space wraps the tensor space; copy() goes through the real
+    # DiscretizedSpace.element / NumpyTensorSpace.element
+    DISCR = 'odl/discr/discr_space.py'
+    dci = model.get('DiscretizedSpaceElement')
+    dsp_ci = model.get('DiscretizedSpace')
+    if dci is None or dsp_ci is None or 'copy' not in dci.methods:
+        raise AnalysisError('anchor vanished: DiscretizedSpaceElement.copy')
+    dfn = dci.methods['copy']
+
+    class DH(CH):
+        def on_getattr(self, interp, obj, name):
+            if isinstance(obj, Inst) and obj.ci.name == 'NumpyTensorSpace' \
+                    and name == 'element_type':
+                def mk(sp_, arr):
+                    el = Inst(ci)
+                    el.attrs['_LinearSpaceElement__space'] = sp_
+                    el.attrs['_NumpyTensor__data'] = arr
+                    return el
+                return Builtin('element_type', mk)
+            if isinstance(obj, Inst) and obj.ci.name == 'DiscretizedSpace' \
+                    and name == 'element_type':
+                return Builtin('element_type', lambda sp, t: Rec(
+                    'made-delement', space=sp, tensor=t))
+            if isinstance(obj, Inst) and obj.ci.name == \
+                    'DiscretizedSpaceElement':
+                t = obj.attrs['_DiscretizedSpaceElement__tensor']
+                if name == 'tensor':
+                    return t
+                if name == 'data':
+                    return t.attrs['_NumpyTensor__data']
+            return CH.on_getattr(self, interp, obj, name)
+
+    class DI_(CI):
+        def contains(self, cont, item, node):
+            if isinstance(cont, Inst) and cont.ci.name == 'DiscretizedSpace':
+                return isinstance(item, Inst) and item.attrs.get(
+                    '_LinearSpaceElement__space') is cont
+            return CI.contains(self, cont, item, node)
+    for lay in ('C', 'F', 'strided', 'transposed'):
+        n += 1
+        cons = 'DiscretizedSpaceElement.copy[data layout %s]' % lay
+        try:
+            I = DI_(model, {}, DH('small'))
+            sp = Inst(csp)
+            sp.attrs['_TensorSpace__shape'] = (2, 3)
+            sp.attrs['_TensorSpace__dtype'] = DT('float64')
+            t = Inst(ci)
+            data = layout_array('x', lay)
+            t.attrs['_LinearSpaceElement__space'] = sp
+            t.attrs['_NumpyTensor__data'] = data
+            dsp = Inst(dsp_ci)
+            dsp.attrs['_DiscretizedSpace__tspace'] = sp
+            dsp.attrs['tspace'] = sp
+            dsp.attrs['default_order'] = 'C'
+            x = Inst(dci)
+            x.attrs['_LinearSpaceElement__space'] = dsp
+            x.attrs['_DiscretizedSpaceElement__tensor'] = t
+            r = I.call_func(Func(dfn, I.env_of(DISCR), dci), [x], {})
+            if not (isinstance(r, Rec) and r.kind == 'made-delement'):
+                raise Undecided('result %r' % (r,))
+            rt = r.attrs['tensor']
+            got = rt.attrs['data'] if isinstance(rt, Rec) else \
+                rt.attrs.get('_NumpyTensor__data')
+            if not isinstance(got, NA):
+                raise Undecided('copied tensor %r' % (rt,))
+            probs = []
+            if got.a.shape != data.a.shape or any(
+                    not (to_rat(a) - to_rat(b)).is_zero()
+                    for a, b in zip(got.a.ravel(), data.a.ravel())):
+                probs.append('entries differ')
+            if _np.shares_memory(got.a, data.a):
+                probs.append('the copy shares memory with the original: '
+                             'writing into one changes the other')
+            if probs:
+                rep.violation('R5L', cons, '; '.join(probs), DISCR,
+                              dfn.lineno)
+            else:
+                rep.holds('R5L', cons, 'equal entries in memory of its own')
+        except Undecided as e:
+            rep.undecided('R5L', cons, str(e), DISCR, dfn.lineno)
+        except PyRaise as e:
+            rep.violation('R5L', cons, 'raises %s' % e.name, DISCR,
+                          dfn.lineno)
+    rep.floor('R5L', 'copy evaluations', n, 8)
 
 
 def layout_rules(rep, model, thorough):
